@@ -129,7 +129,7 @@ def check_alone(case, ctx):
         ctx.case(case, False)
         return
     try:
-        p = Pregex(s)
+        p = Pregex(dsl.TaggedStr(s)) if case.get('sub') else Pregex(s)
     except Exception as ex:  # noqa: BLE001
         if type(ex).__name__ == 'CaseTimeout':
             raise
@@ -217,14 +217,14 @@ def check_case(case, ctx):
 
 
 def str_leaf(features=dsl.ALL_FEATURES):
-    return st.one_of(dsl.literal_strategy(features, 1, 6)).map(lambda s: ['lit', s, True])
+    return st.tuples(dsl.literal_strategy(features, 1, 6), st.sampled_from([True, True, True, 'sub'])).map(lambda t: ['lit', t[0], t[1]])
 
 
 def strategy(spec, ctx):
     mode = spec['mode']
     lit = dsl.literal_strategy(dsl.ALL_FEATURES, 1, 8)
     if mode == 'alone':
-        return st.fixed_dictionaries({'mode': st.just('alone'), 's': lit, 'x': st.sampled_from([' ', '', 'a', '\\', '\n']),
+        return st.fixed_dictionaries({'mode': st.just('alone'), 's': lit, 'sub': st.sampled_from([False, False, False, True]), 'x': st.sampled_from([' ', '', 'a', '\\', '\n']),
                                       'y': st.sampled_from(['a', '', ' ', '$', '.'])})
     if mode == 'cond':
         return st.fixed_dictionaries({'mode': st.just('cond'), 's1': lit, 's2': st.one_of(st.none(), lit),
